@@ -65,6 +65,12 @@ func edifactHandleEOD(context *EncoderContext, buffer []byte) error {
 
 		available := context.GetSymbolInfo().GetDataCapacity() - context.GetCodewordCount()
 		remaining := context.GetRemainingCharacters()
+		// what remains is written in ASCII encodation, where a character above 127 takes two codewords (upper shift)
+		for i, end := context.pos, context.pos+remaining; i < end; i++ {
+			if context.msg[i] > 127 {
+				remaining++
+			}
+		}
 		// The following two lines are a hack inspired by the 'fix' from https://sourceforge.net/p/barcode4j/svn/221/
 		if remaining > available {
 			e := context.UpdateSymbolInfoByLength(context.GetCodewordCount() + 1)
